@@ -7,8 +7,9 @@ CONSTANTS
   Weaken = "none"
   GapFix = FALSE
   CertRounds = {1, 2}
-  Direct = TRUE
-  Timeouts = TRUE
+  Direct = FALSE
+  MidCrash = TRUE
+  Timeouts = FALSE
 INVARIANT ContainerOK
 INVARIANT TopIsHeight
 INVARIANT StorageShape
@@ -18,4 +19,6 @@ PROPERTY NoRerunCtl
 PROPERTY HeightMonotone
 PROPERTY HighestMonotone
 PROPERTY HistMonotoneExceptRerun
+PROPERTY RestartCoversLearned
+INVARIANT HistBehindHighest
 VIEW view
